@@ -253,6 +253,7 @@ func runC11(seed uint64, n int, outDir string, replay string) {
 				}
 			}
 			// probe: open a node on image+prefix, check it, let it continue with `resume`, compare with `want`
+			var afterResume func(*zoneNode) error
 			probe := func(what string, image map[string]string, steps [][]kvOp, i int, resume func(*zoneNode) error, want string) {
 				var nd *zoneNode
 				var err error
@@ -313,6 +314,23 @@ func runC11(seed uint64, n int, outDir string, replay string) {
 					o.Violate("c11-diverged-after-restart:"+what+":after-"+cls, fmt.Sprintf("%s: crash after step %d/%d (%s): after continuing, the restarted node's ledger / head differ from the node that did not crash", what, i, len(steps), cls))
 					return
 				}
+				if afterResume != nil {
+					// and the chain goes on from there: a block built on top by somebody else (before the crash) is accepted
+					var aerr error
+					func() {
+						defer func() {
+							if p := recover(); p != nil {
+								aerr = fmt.Errorf("panic: %v", p)
+							}
+						}()
+						aerr = afterResume(nd)
+					}()
+					if aerr != nil {
+						ans("stuck-later")
+						o.Violate("c11-successor-refused-after-recovery:"+what+":after-"+cls, fmt.Sprintf("%s: crash after step %d/%d (%s): the restarted node reaches the right state, but refuses the next block of the chain: %v", what, i, len(steps), cls, aerr))
+						return
+					}
+				}
 				ans("ok")
 				o.Count("probe:" + what + ":after-" + cls)
 			}
@@ -327,10 +345,17 @@ func runC11(seed uint64, n int, outDir string, replay string) {
 			}
 			// (a) crash while appending a block
 			trimmedSeen := false
+			var prebuilt *cwStep
 			for b, nb := 0, 2+rc.Intn(3); b < nb || (!trimmedSeen && b < nb+16); b++ {
 				// (beyond the first few blocks the chain is extended until a block that trims old outputs has been crash-tested
 				// too: trimming is the one ledger change a block makes that no transaction of it asks for)
-				st, err := w.build()
+				var st *cwStep
+				var err error
+				if prebuilt != nil {
+					st, prebuilt = prebuilt, nil
+				} else {
+					st, err = w.build()
+				}
 				if err != nil {
 					o.Violate("c07-own-block-rejected", fmt.Sprintf("%v", err))
 					return
@@ -342,6 +367,13 @@ func runC11(seed uint64, n int, outDir string, replay string) {
 				if err != nil {
 					o.Violate("c07-own-block-rejected", fmt.Sprintf("%v", err))
 					return
+				}
+				// the next block of the chain, built now on the node that did not crash
+				afterResume = nil
+				if nxt, nerr := w.build(); nerr == nil {
+					prebuilt = nxt
+					cb, ci := nxt.blk, nxt.inbound
+					afterResume = func(nd *zoneNode) error { return nd.appendBlock(cb, ci) }
 				}
 				var sched []string
 				for _, s := range steps {
@@ -382,6 +414,7 @@ func runC11(seed uint64, n int, outDir string, replay string) {
 					}, want)
 				}
 			}
+			afterResume = nil
 			// (b) crash while switching to another branch
 			Y, err := newZoneNode(newMemDB(), zoneOpts{allocs: allocs})
 			if err != nil {
